@@ -1,7 +1,22 @@
-"""C02 routing: obligations + correspondence (model of route compilation,
-Python's re on the supported subset, and handler_from_table/-default against
-a real Application) + monitor (an independent reference router written from
-the property text: per-segment re.fullmatch, documented precedence)."""
+"""C02 routing: obligations + correspondence + monitor.
+
+Correspondence (model vs /repo, same inputs):
+  filters  the built-in filter table of the model = app.filters of a fresh
+           Application (table tie);
+  regex    the model of Python's re (parser, derivative acceptor, backtracking
+           matcher with captures) against CPython's re on patterns x texts,
+           and "fails closed" on syntax outside the subset;
+  tables   after a sequence of set_filter / set_route / set_regular_route /
+           set_default calls: pattern texts, group counts, per-method
+           (handler, converters, rule) in table order, outcome of every call;
+  bridge   re.compile of the generated pattern text = the structured
+           expression the theorems speak about (also proved: compile_bridge);
+  select   for every probe (method token, PATH_INFO): status, uri_rule and
+           uri_handler seen by a before hook, which handler ran, its
+           positional arguments and req.path_args.
+Monitor: RefRouter, written from the property text: own scanner of
+<name:filter> groups, per-segment re.fullmatch over every split of the path,
+documented precedence; judges which endpoint ran, its arguments, status."""
 import itertools
 import os
 import re
@@ -11,7 +26,7 @@ import uuid
 
 import implrun  # noqa: F401  (sets sys.path)
 from implrun import new_app, environ, call
-from core import Exn, slit, zlit, clist, blit
+from core import Exn, slit, clist, blit
 
 IMPORTS = "Require Import PW.model.Regex PW.model.Routing."
 
@@ -481,7 +496,7 @@ class RefRouter:
         return ("status", 404)
 
 
-def judge(ctx, ref, want, got, method, path, detail):
+def judge(ctx, want, got, method, path, detail):
     """compare the reference decision with what the implementation did"""
     def bad(key, why):
         det = dict(detail)
@@ -531,9 +546,7 @@ def judge(ctx, ref, want, got, method, path, detail):
     convs = [p[3] for p in spec if p[0] == "grp"]
     names = [p[1] for p in spec if p[0] == "grp"]
     ok_any, raising = False, 0
-    nsplit = 0
     for segs in RefRouter.splits(spec, path):
-        nsplit += 1
         try:
             vals = [canon(c(s)) for c, s in zip(convs, segs)]
         except (ValueError, TypeError):
@@ -573,7 +586,7 @@ def near_misses(path):
     return out
 
 
-def make_scenario(rng, nroutes, hostile=False):
+def make_scenario(rng, nroutes):
     """ops (routes with their filters first), plus sample paths"""
     chosen, samples, filters = [], [], []
     for _ in range(nroutes):
@@ -768,7 +781,7 @@ def body(ctx, rng, quick, root):
                     # property's quantifier: model tie only
                     ctx.count("monitor-skipped-metachar-literal")
                 else:
-                    judge(ctx, ref, want, got, meth, path,
+                    judge(ctx, want, got, meth, path,
                           dict(detail, path_info=info))
                 leaf = want[0] if want[0] != "status" else str(want[1])
                 ctx.count("leaf-" + leaf)
